@@ -15,7 +15,7 @@ use serde_json::{json, Value};
 use std::cell::Cell;
 use std::collections::HashMap;
 
-pub const RULE: &str = "valid positions biased to small quiescence trees (endgames 3..8 men, playout positions, placements <=18 men, motifs incl. in-check roots, single-move roots, roots next to mate/stalemate); configurations: (a) find_best_move(p,d,None) on a fresh Searcher, d in 1..3 (public API, iterative deepening); (b) verif_search_fixed(p,d), d in 4..5 on <=6 men, judged only if the deeper-entry-reuse counter is 0; (c) part promotion-grid, ENUMERATED: every K+P(seventh) v K ending with both kings within two squares of the pawn / promotion square, mover to move at d=2,3 and the other side to move at d=3 (thorough: 4), same oracle (an under-promotion being the only best move is counted). (d) part geometry-grid, ENUMERATED (quick tier a seed-dependent share): positions of the check-geometry grid (grid.rs) at d=1,2 and their boxed mates (every kind of checking move turned into a mate) at d=1..3. Oracle: plain minimax V(p,d) over the reference rules with the engine's own evaluation at quiescence leaves (no pruning/ordering/caching), exact integer equality (scores beyond +-32767 as WON/LOST); returned move must be legal and attain V; every table entry left behind whose key matches a tree position must be a true (depth,bound,score) claim about V. Cases whose reference tree exceeds the node cap are excluded and counted. Non-trivial = root has >=2 legal moves, V not WON/LOST, >=1 beta cut-off, and for d>=2 >=1 table probe that found an entry; distinct by (FEN, depth, config).";
+pub const RULE: &str = "valid positions biased to small quiescence trees (endgames 3..8 men, playout positions, placements <=18 men, motifs incl. in-check roots, single-move roots, roots next to mate/stalemate); configurations: (a) find_best_move(p,d,None) on a fresh Searcher, d in 1..3 (public API, iterative deepening); (b) verif_search_fixed(p,d), d in 4..5 on <=6 men, judged only if the deeper-entry-reuse counter is 0; (c) part promotion-grid, ENUMERATED: every K+P(seventh) v K ending with both kings within two squares of the pawn / promotion square, mover to move at d=2,3 and the other side to move at d=3 (thorough: 4), same oracle (an under-promotion being the only best move is counted). (e) part ep-transposition, constructed: a pawn of the mover on its second rank with an enemy pawn on an adjacent file two ranks ahead (every file, both directions, either colour), kings and one or two men a side on derived squares, FIXED depth 4 (a quarter: 5): the lines 'push, x, m' and 'm, x, push' reach the same placement with and without the en-passant right. (d) part geometry-grid, ENUMERATED (quick tier a seed-dependent share): positions of the check-geometry grid (grid.rs) at d=1,2 and their boxed mates (every kind of checking move turned into a mate) at d=1..3. Oracle: plain minimax V(p,d) over the reference rules with the engine's own evaluation at quiescence leaves (no pruning/ordering/caching), exact integer equality (scores beyond +-32767 as WON/LOST); returned move must be legal and attain V; every table entry left behind whose key matches a tree position must be a true (depth,bound,score) claim about V. Cases whose reference tree exceeds the node cap are excluded and counted. Non-trivial = root has >=2 legal moves, V not WON/LOST, >=1 beta cut-off, and for d>=2 >=1 table probe that found an entry; distinct by (FEN, depth, config).";
 
 thread_local! {
     pub static REF_CAP: Cell<u64> = Cell::new(300_000);
@@ -324,6 +324,70 @@ fn check_grid(item: &(Pos, u8), stats: &mut Stats) -> Verdict {
     Ok(())
 }
 
+/// Enumerated-by-construction family 'ep-transposition' for the fixed-depth searches 4..5: a pawn
+/// of the mover on its second rank with an enemy pawn on an adjacent file two ranks ahead of it (the
+/// double push can be answered by an en-passant capture), every file and both directions, either
+/// colour, kings apart and one or two further men a side on derived squares so that both sides have
+/// tempo moves: the lines 'push, x, m' and 'm, x, push' reach the same placement with and without
+/// the en-passant right — the table must keep them apart.
+pub fn ep_transposition_cases(per_shape: u64) -> Vec<(Pos, u8)> {
+    use refchess::{sq_of, Color, Kind};
+    let mut out = Vec::new();
+    for file in 0..8i32 {
+        for side in [-1i32, 1] {
+            let cf = file + side;
+            if !(0..8).contains(&cf) {
+                continue;
+            }
+            for v in 0..per_shape {
+                let mut h = crate::stats::hash_of(&(file, side, v, 0x51u8));
+                let mut next = |n: u64| {
+                    h ^= h << 13;
+                    h ^= h >> 7;
+                    h ^= h << 17;
+                    (h >> 9) % n
+                };
+                let mut p = Pos::empty();
+                p.stm = Color::W;
+                p.sq[sq_of(file, 1).unwrap() as usize] = Some((Color::W, Kind::P));
+                p.sq[sq_of(cf, 3).unwrap() as usize] = Some((Color::B, Kind::P));
+                let mut place = |p: &mut Pos, m: (Color, Kind), next: &mut dyn FnMut(u64) -> u64| -> bool {
+                    for _ in 0..30 {
+                        let q = next(64) as u8;
+                        if p.sq[q as usize].is_some() || (m.1 == Kind::P && (q < 8 || q >= 56)) {
+                            continue;
+                        }
+                        // keep the pushing pawn's path free
+                        if q == sq_of(file, 2).unwrap() || q == sq_of(file, 3).unwrap() {
+                            continue;
+                        }
+                        p.sq[q as usize] = Some(m);
+                        return true;
+                    }
+                    false
+                };
+                let mut ok = place(&mut p, (Color::W, Kind::K), &mut next) && place(&mut p, (Color::B, Kind::K), &mut next);
+                let wextra = [Kind::N, Kind::B, Kind::N, Kind::R][next(4) as usize];
+                ok = ok && place(&mut p, (Color::W, wextra), &mut next);
+                if next(3) > 0 {
+                    let bextra = [Kind::N, Kind::B, Kind::P][next(3) as usize];
+                    ok = ok && place(&mut p, (Color::B, bextra), &mut next);
+                }
+                if !ok || !p.is_valid() || p.in_check() {
+                    continue;
+                }
+                let push = refchess::Mv { from: sq_of(file, 1).unwrap(), to: sq_of(file, 3).unwrap(), promo: None };
+                if !p.legal_moves().contains(&push) {
+                    continue;
+                }
+                let d = if v % 4 == 3 { 5 } else { 4 };
+                out.push((if v % 2 == 0 { p.clone() } else { p.mirror() }, d));
+            }
+        }
+    }
+    out
+}
+
 pub fn run(tier: Tier, seed: u64, known: &Known) -> PropRun {
     let mut run = PropRun::new("exploration", RULE);
     run.assumptions = vec![
@@ -362,6 +426,21 @@ pub fn run(tier: Tier, seed: u64, known: &Known) -> PropRun {
                 judge(q, 1 + ((h >> (8 + j)) % 3) as u8, false, "geometry-grid-boxed-mate", st)?;
             }
             Ok(())
+        });
+        run.stats.merge(st);
+        run.failure = fl;
+        if run.failure.is_some() {
+            return run;
+        }
+    }
+    {
+        let cases = ep_transposition_cases(tier.pick(24, 200));
+        run.stats.class_n("ep_transposition_cases_constructed", cases.len() as u64);
+        let big = tier.pick(400_000u64, 3_000_000u64);
+        let (st, fl) = crate::runner::run_enumerated("ep-transposition", &cases, threads(), seed, known, |it, st| {
+            REF_CAP.with(|c| c.set(big));
+            eng::set_counter_wish(0, 1);
+            judge(&it.0, it.1, true, "ep-transposition", st)
         });
         run.stats.merge(st);
         run.failure = fl;
